@@ -136,6 +136,9 @@ let owned_str n (v : bed_view) =
         (if k >= 6 then strand_s b.b_strand else "~");
         hexs b.b_others ]) (bed_owned n v)
 
+(* the copy loop's write of the record state (NV.Text.BedRewrite.bed_rewrite_view) *)
+let rewrite_str n (v : bed_view) = res_str hex_of_bytes (bed_rewrite_view n v)
+
 let res_nat_str r = res_str (fun k -> string_of_int (int_of_nat k)) r
 
 let bedfile_obs (a : string array) =
@@ -165,15 +168,16 @@ let bed_obs (a : string array) =
       let views = bed_read_file (nat_of_int 3) r.b_n (line @ [lf]) (bed_default r.b_n) in
       "W=" ^ hex_of_bytes line ^ "|R=" ^
       String.concat ";" (List.map (function
-        | Ok v -> view_str v ^ "/" ^ owned_str r.b_n v
+        | Ok v -> view_str v ^ "/" ^ owned_str r.b_n v ^ "/" ^ rewrite_str r.b_n v
         | Err e -> "Err:" ^ err_name e
         | Panic -> "Panic") views)
+      ^ "|RW=" ^ res_str hex_of_bytes (bed_rewrite r.b_n (line @ [lf]) (bed_default r.b_n))
 
 let bedraw_obs (a : string array) =
   let nn = nat_of_int (int_of_string a.(0)) in
   let es = bed_read_raw (nat_of_int (int_of_string a.(2))) nn (bytes_of_hex a.(1)) (bed_default nn) in
   String.concat ";" (List.map (fun (r, v) ->
-    res_nat_str r ^ "/" ^ view_str v ^ "/" ^ owned_str nn v) es)
+    res_nat_str r ^ "/" ^ view_str v ^ "/" ^ owned_str nn v ^ "/" ^ rewrite_str nn v) es)
 
 (* typed other fields (NV.Text.BedTyped); the f64 text oracle comes with the case *)
 let bedt_obs (a : string array) =
@@ -203,9 +207,10 @@ let bedt_obs (a : string array) =
       let views = bed_read_file (nat_of_int 3) r.b_n (line @ [lf]) (bed_default r.b_n) in
       "W=" ^ hex_of_bytes line ^ "|R=" ^
       String.concat ";" (List.map (function
-        | Ok v -> view_str v ^ "/" ^ owned_str r.b_n v
+        | Ok v -> view_str v ^ "/" ^ owned_str r.b_n v ^ "/" ^ rewrite_str r.b_n v
         | Err e -> "Err:" ^ err_name e
         | Panic -> "Panic") views)
+      ^ "|RW=" ^ res_str hex_of_bytes (bed_rewrite r.b_n (line @ [lf]) (bed_default r.b_n))
 
 (* ---- GFF3 line kinds (NV.Text.GffLine) ---- *)
 let optv = function None -> "-" | Some v -> hex_of_bytes v
